@@ -206,7 +206,15 @@ def run(case, ctx):
           (bytes(got).hex()[:120], want.hex()[:120]), fields=f)
     rest = body[4:]
     for n in (0, 1, 2, 3):
-        back = P.SCPPacket.from_bytestring(want, n_args=n)
+        # (a received datagram may sit in a caller's reusable buffer: the
+        # mutable kind of bytestring decodes the same and stays untouched)
+        raw = want
+        if (len(want) + n) % 4 == 1:
+            raw = bytearray(want)
+            ctx.hit("decoded_from_bytearray")
+        back = P.SCPPacket.from_bytestring(raw, n_args=n)
+        check(bytes(raw) == want, "decode-modified-its-input",
+              "the buffer handed to from_bytestring changed")
         ctx.hit("decode_compare")
         if len(rest) < 12:
             ctx.hit("short_decode")
